@@ -26,6 +26,8 @@ REPO = os.environ.get('VERIF_REPO', '/repo')
 # scratch runs against a mutated tree (VERIF_REPO) must not overwrite the committed evidence of /repo itself
 EVID = os.environ.get('VERIF_EVIDENCE_DIR') or os.path.join(VERIF, 'evidence')
 REPLAY = os.path.join(EVID, 'replay')
+# how many of the earliest passing cases of every correspondence / oracle stage are evaluated a second time at its end
+RECHECK_N = int(os.environ.get('VERIF_RECHECK_N', '150'))
 ALLOWED_AXIOMS = {'propext', 'Classical.choice', 'Quot.sound'}
 FORBIDDEN = re.compile(r'\b(sorry|admit|native_decide|bv_decide|implemented_by|unsafe)\b|^\s*axiom\s|maxHeartbeats\s+0\b')
 
@@ -257,12 +259,14 @@ class Check:
         return out
 
     # -------------------------------------------------------- correspondence
-    def correspond(self, name, exe, cases, line_fn, impl_fn, compare=None, nontrivial_fn=None, max_report=5):
+    def correspond(self, name, exe, cases, line_fn, impl_fn, compare=None, nontrivial_fn=None, max_report=5,
+                   recheck=True):
         """cases -> protocol lines -> driver; impl_fn(case) -> canonical string; diff"""
         cases = list(cases)
         lines = [line_fn(c) for c in cases]
         model = self.driver(exe, lines) if cases else []
         st = self.corr.setdefault(name, {'evaluations': 0, 'disagreements': 0, 'samples': []})
+        first = []
         for c, l, m in zip(cases, lines, model):
             try:
                 im = impl_fn(c)
@@ -279,12 +283,30 @@ class Check:
                 st['disagreements'] += 1
                 if len([d for d in self.disagreements if d['op'] == name]) < max_report:
                     self.disagreements.append({'op': name, 'line': l, 'impl': im[:2000], 'model': m[:2000]})
+            elif recheck and len(first) < RECHECK_N:
+                first.append((c, l, im))
+        # late re-evaluation: the same call, repeated after the rest of this stage, must give the same answer
+        # (memoisation keyed too coarsely, cached results handed out and edited, state kept on objects ...)
+        for c, l, im in first:
+            try:
+                im2 = impl_fn(c)
+            except Exception as e:  # noqa
+                im2 = 'EXC:' + type(e).__name__
+            st['reevaluated'] = st.get('reevaluated', 0) + 1
+            if im2 != im and not (compare and compare(im2, im)):
+                st['disagreements'] += 1
+                if len([f for f in self.failures if f['oracle'] == name + '/re-evaluation']) < max_report:
+                    self.failures.append({'oracle': name + '/re-evaluation', 'case': _jsonable(c),
+                                          'detail': ('the implementation answered differently when the same call was repeated '
+                                                     'later in the same process: first %s then %s (protocol line %s)'
+                                                     % (im[:600], im2[:600], l[:300]))})
         return st['disagreements'] == 0
 
     # ---------------------------------------------------------------- oracle
-    def oracle(self, name, cases, prop_fn, nontrivial_fn=None, max_report=5, key_fn=None):
+    def oracle(self, name, cases, prop_fn, nontrivial_fn=None, max_report=5, key_fn=None, recheck=True):
         """prop_fn(case) -> None if the property holds on the implementation, else a description"""
         st = self.oracles.setdefault(name, {'evaluations': 0, 'failures': 0, 'samples': []})
+        first = []
         for c in cases:
             st['evaluations'] += 1
             self.evaluations += 1
@@ -300,6 +322,20 @@ class Check:
                 st['failures'] += 1
                 if len([f for f in self.failures if f['oracle'] == name]) < max_report:
                     self.failures.append({'oracle': name, 'case': _jsonable(c), 'detail': str(r)[:2000]})
+            elif recheck and len(first) < RECHECK_N:
+                first.append(c)
+        for c in first:
+            try:
+                r = prop_fn(c)
+            except Exception as e:  # noqa
+                r = f'unexpected {type(e).__name__}: {e}'
+            st['reevaluated'] = st.get('reevaluated', 0) + 1
+            if r is not None:
+                st['failures'] += 1
+                if len([f for f in self.failures if f['oracle'] == name + '/re-evaluation']) < max_report:
+                    self.failures.append({'oracle': name + '/re-evaluation', 'case': _jsonable(c),
+                                          'detail': 'held when first evaluated, fails when the same case is re-evaluated after '
+                                                    'the rest of this stage (history dependence): ' + str(r)[:1800]})
         return st['failures'] == 0
 
     def count(self, key, k=1):
